@@ -12,6 +12,11 @@ def smn_identifier(name, result):
     return is_ascii_identifier(result) and not is_keyword(result)
 
 
+@c.ensures(note="C20 / C01: never the name of the receiver of a generated method — a parameter spelled `self` or `cls` gets a trailing underscore")
+def smn_not_a_receiver_name(name, result):
+    return result != "self" and result != "cls"
+
+
 # ---- enum member names: never a name that Enum reserves for itself (C20 / C01) -------------------------------------------------------
 c = contract("pyopenapi_gen.visit.model.enum_generator:EnumGenerator._generate_member_name_for_string_enum", props=["C20"], abstract_unsupported=True,
              tracked_names=["sanitized_member_name"])
